@@ -147,6 +147,8 @@ enum OpDef {
     ReserveRegions(u8),
     CloneReplace,
     CloneFromReplace,
+    /// dst := merge_capacity([stack holding the first two values]); dst.clone_from(self); continue with dst
+    CloneFromMerged,
     MergeCapacity(u8),
     WithCapacity(usize),
     Serde,
@@ -206,6 +208,7 @@ impl<S: Spec, C: flatcontainer::impls::index::IndexContainer<Idx<S>> + IdxModel<
         if caps.clone.is_some() && oracle == StackOracle::Sequence {
             ops.push(OpDef::CloneReplace);
             ops.push(OpDef::CloneFromReplace);
+            ops.push(OpDef::CloneFromMerged);
         }
         if oracle == StackOracle::Presize || oracle == StackOracle::Sequence {
             ops.push(OpDef::MergeCapacity(0));
@@ -299,6 +302,9 @@ impl<S: Spec, C: flatcontainer::impls::index::IndexContainer<Idx<S>> + IdxModel<
             walk(it.clone(), half, "iterator cloned mid-way")
         })
         .map_err(|p| format!("cloned iterator panicked: {p}"))??;
+        guard(|| crate::engine::iter_laws(&s.iter(), n, &|item, j| S::check(item, &self.values[self.model[j]])))
+            .map_err(|p| format!("iterator method panicked: {p}"))?
+            .map_err(|e| format!("iter(): {e}"))?;
         if let Some(d) = self.caps.debug {
             if !self.e.zst {
                 let (a, b) = guard(|| d(s)).map_err(|p| format!("Debug panicked: {p}"))?;
@@ -385,6 +391,7 @@ impl<S: Spec, C: flatcontainer::impls::index::IndexContainer<Idx<S>> + IdxModel<
             OpDef::ReserveRegions(k) => format!("reserve_regions([{}])", if *k == 0 { "an empty region" } else { "a region holding the values in reverse" }),
             OpDef::CloneReplace => "replace by clone()".into(),
             OpDef::CloneFromReplace => "replace by clone_from() into a pre-filled stack".into(),
+            OpDef::CloneFromMerged => "replace by clone_from() into an empty stack returned by merge_capacity([stack holding the first two values])".into(),
             OpDef::MergeCapacity(k) => format!("replace by merge_capacity([{}])", if *k == 0 { "" } else { "self" }),
             OpDef::WithCapacity(n) => format!("replace by with_capacity({n})"),
             OpDef::Serde => "replace by serde_json round trip".into(),
@@ -526,6 +533,25 @@ impl<S: Spec, C: flatcontainer::impls::index::IndexContainer<Idx<S>> + IdxModel<
                     return Step::Violation(format!("clone_from() panicked: {p}"));
                 }
                 self.st = dst;
+            }
+            OpDef::CloneFromMerged => {
+                let f = self.caps.clone_from.unwrap();
+                let mut src: FS<S, C> = Default::default();
+                if let Some(co) = self.caps.copy_owned {
+                    for v in self.values.iter().take(2) {
+                        co(&mut src, v);
+                    }
+                }
+                let st = &self.st;
+                let r = guard(|| {
+                    let mut dst = FS::<S, C>::merge_capacity(std::iter::once(&src));
+                    f(&mut dst, st);
+                    dst
+                });
+                match r {
+                    Ok(dst) => self.st = dst,
+                    Err(p) => return Step::Violation(format!("clone_from() into a merged stack panicked: {p}")),
+                }
             }
             OpDef::MergeCapacity(k) => {
                 let st = &self.st;
